@@ -71,6 +71,10 @@ pub struct BuildSpec {
     /// text: the result goes to `BuildResult::lex_dump`
     #[serde(default)]
     pub lex_probe: Option<String>,
+    /// Some((crate directory, OUT_DIR)): use `grammar_in_src_dir` / `lexer_in_src_dir` with
+    /// `grammar_path` / `lexer_path` taken relative to `<crate directory>/src`, as a build.rs does
+    #[serde(default)]
+    pub src_dir_mode: Option<(String, String)>,
 }
 
 #[derive(Serialize, Deserialize, Clone, Debug, Default)]
@@ -222,10 +226,12 @@ fn lex_probe(spec: &BuildSpec) -> Option<String> {
     Some(out)
 }
 
+static IN_SRC_DIR: std::sync::atomic::AtomicBool = std::sync::atomic::AtomicBool::new(false);
+
 macro_rules! impl_build {
     ($cfg:ident, $run:ident, $t:ty) => {
         fn $cfg<'a>(mut ctp: lrpar::CTParserBuilder<'a, DefaultLexerTypes<$t>>, p: &ParserOpts, gpath: &PathBuf, pout: &PathBuf) -> lrpar::CTParserBuilder<'a, DefaultLexerTypes<$t>> {
-            ctp = ctp.grammar_path(gpath).output_path(pout);
+            ctp = if IN_SRC_DIR.load(std::sync::atomic::Ordering::SeqCst) { ctp.grammar_in_src_dir(gpath).expect("grammar_in_src_dir") } else { ctp.grammar_path(gpath).output_path(pout) };
             if let Some(k) = p.yacckind.as_deref().and_then(yacckind_of) {
                 ctp = ctp.yacckind(k);
             }
@@ -259,9 +265,16 @@ macro_rules! impl_build {
             let p = spec.parser.clone();
             let gpath = PathBuf::from(&spec.grammar_path);
             let pout = PathBuf::from(&spec.parser_out);
-            let mut lb = CTLexerBuilder::<DefaultLexerTypes<$t>>::new_with_lexemet()
-                .lexer_path(&spec.lexer_path)
-                .output_path(&spec.lexer_out);
+            let mut lb = CTLexerBuilder::<DefaultLexerTypes<$t>>::new_with_lexemet();
+            lb = match &spec.src_dir_mode {
+                Some((manifest, out_dir)) => {
+                    std::env::set_current_dir(manifest).map_err(|e| e.to_string())?;
+                    std::env::set_var("OUT_DIR", out_dir);
+                    IN_SRC_DIR.store(true, std::sync::atomic::Ordering::SeqCst);
+                    lb.lexer_in_src_dir(&spec.lexer_path).map_err(|e| e.to_string())?
+                }
+                None => lb.lexer_path(&spec.lexer_path).output_path(&spec.lexer_out),
+            };
             let l = &spec.lexer;
             if let Some(v) = &l.visibility {
                 lb = lb.visibility(lvis_of(v));
